@@ -137,6 +137,9 @@ def coq_build(log, targets=None, jobs=16, timeout=3000):
         cmd = ["make", "-k", "-j%d" % jobs]
         if targets:
             cmd += targets
+        if targets and os.environ.get("VERIF_DEV"):
+            # development mode: targeted builds of disjoint closures may run side by side
+            fcntl.flock(lk, fcntl.LOCK_UN)
         rc, out = sh(cmd, cwd=COQ, timeout=timeout)
         log.append("make rc=%d\n%s" % (rc, out[-6000:]))
         return kerr, rc, out
